@@ -519,7 +519,23 @@ TrToolArgs == IsEv("tool.args") /\ LET ev == T[l] IN Step(objs, <<0, 0>>, <<ev.s
 ToolNext == TrToolCrypt \/ TrToolGenKey \/ TrToolSum \/ TrToolSumCheck \/ TrToolSumFault \/ TrToolArgs
 
 -----------------------------------------------------------------------------
-Next == TrReset \/ PermNext \/ SpongeNext \/ AeadNext \/ AeadIncNext \/ KdfNext \/ IsapNext \/ PrngNext \/ MiscNext \/ ExtraNext \/ BaNext \/ MaskedNext \/ ToolNext
+(* C18: assembly back ends.  asm.permute: one call of a permutation entry  *)
+(* point of some architecture (native x86-64 through a register-sentinel   *)
+(* trampoline, native i386 in a freestanding 32-bit program, AVR5 on the   *)
+(* generator's instruction interpreter, other architectures on the subset  *)
+(* interpreters of tools/asmint.py): Permute of the specification, all     *)
+(* callee-saved registers and the stack pointer restored, nothing written  *)
+(* outside the state.  gen.diff: a checked-in file equals what its         *)
+(* generator emits.  elf.stack: no object forces an executable stack.      *)
+TrAsmPermute == IsEv("asm.permute") /\ LET ev == T[l] IN
+  Step(objs, <<Permute(ev["in"], ev.r), 1, 1, 1>>, <<ev.out, ev.regs, ev.sp, ev.guard>>)
+TrAsmSelfTest == IsEv("asm.selftest") /\ LET ev == T[l] IN Step(objs, <<1>>, <<ev.ok>>)
+TrGenDiff == IsEv("gen.diff") /\ LET ev == T[l] IN Step(objs, <<1, 1>>, <<ev.generated, ev.equal>>)
+TrElfStack == IsEv("elf.stack") /\ LET ev == T[l] IN Step(objs, <<0>>, <<ev.exec>>)
+AsmNext == TrAsmPermute \/ TrAsmSelfTest \/ TrGenDiff \/ TrElfStack
+
+-----------------------------------------------------------------------------
+Next == TrReset \/ PermNext \/ SpongeNext \/ AeadNext \/ AeadIncNext \/ KdfNext \/ IsapNext \/ PrngNext \/ MiscNext \/ ExtraNext \/ BaNext \/ MaskedNext \/ ToolNext \/ AsmNext
 
 Spec == Init /\ [][Next]_vars
 
